@@ -17,6 +17,8 @@ decidable well-formedness predicates, then instantiated on the concrete handler 
   different PINs the wrong-PIN fault with the failure clause;
 * `fault_initial_untouched`, `success_overwrites_any_initial`: the initial contents of the
   service and of the settings are independent parameters (`credsAfter`);
+* `dmap_current_pin`, `dmap_paired_iff`, `dmap_stored_only_if_paired`: sequences of pin() /
+  request / finish() on one DMAP handler: a request is judged against the most recent PIN only;
 * per handler: `wellFormed` by `decide`, and the instantiated statements.
 * DMAP signals failure only through `has_paired = False` (finish() returns normally):
   `handlers_fault_atomic_counterexample`, `handlers_fault_atomic_partial`, `dmap_fault_no_effect`.
@@ -340,6 +342,108 @@ theorem dmap_pins_differ (expected typed : Nat) (hne : expected ≠ typed) :
 example : runPins mrp 0 0 = (Outcome.ok, St.done) ∧
     runPins mrp 0 1 = (Outcome.error ErrClass.pairing, St.init) ∧
     runPins dmap 0 9999 = (Outcome.silent, St.init) ∧ proofIndex? mrp = some 3 := by decide
+
+/-! ## Sequences of operations on one DMAP handler -/
+
+theorem foldl_dstep_pin (ops : List DOp) : ∀ s : DSt,
+    (ops.foldl dstep s).pin = (match lastPin ops with | some q => some q | none => s.pin) := by
+  induction ops with
+  | nil => intro s; rfl
+  | cons op r ih =>
+    intro s
+    cases op with
+    | pin p =>
+      simp only [List.foldl_cons, ih, dstep, lastPin]
+      cases lastPin r <;> rfl
+    | request c =>
+      simp only [List.foldl_cons, ih, lastPin]
+      cases lastPin r <;> simp [dstep] <;> split <;> rfl
+    | finish =>
+      simp only [List.foldl_cons, ih, lastPin]
+      cases lastPin r <;> simp [dstep] <;> split <;> rfl
+
+/-- **C08/DMAP, no memory of earlier PINs.**  The PIN a request is judged against is the one
+    given by the most recent `pin()`, whatever happened before (other PINs, other requests). -/
+theorem dmap_current_pin (ops : List DOp) : (drun ops).pin = lastPin ops := by
+  rw [drun, foldl_dstep_pin]; cases lastPin ops <;> rfl
+
+theorem foldl_dstep_paired_mono (ops : List DOp) : ∀ s : DSt, s.paired = true →
+    (ops.foldl dstep s).paired = true := by
+  induction ops with
+  | nil => intro s h; exact h
+  | cons op r ih =>
+    intro s h
+    apply ih
+    cases op <;> simp [dstep, h] <;> split <;> simp [h]
+
+theorem foldl_dstep_paired (ops : List DOp) : ∀ s : DSt, s.paired = false →
+    ((ops.foldl dstep s).paired = true ↔
+      ∃ pre c post, ops = pre ++ DOp.request c :: post ∧ accepts (pre.foldl dstep s).pin c = true) := by
+  induction ops with
+  | nil => intro s h; simp [h]
+  | cons op r ih =>
+    intro s h
+    by_cases hacc : ∃ c, op = DOp.request c ∧ accepts s.pin c = true
+    · obtain ⟨c, rfl, hc⟩ := hacc
+      constructor
+      · intro _; exact ⟨[], c, r, rfl, by simpa using hc⟩
+      · intro _
+        exact foldl_dstep_paired_mono r _ (by simp [dstep, hc])
+    · have hs : (dstep s op).paired = false := by
+        cases op with
+        | pin p => simp [dstep, h]
+        | finish => simp [dstep, h]
+        | request c =>
+          have : accepts s.pin c = false := by
+            cases hx : accepts s.pin c with
+            | false => rfl
+            | true => exact absurd ⟨c, rfl, hx⟩ hacc
+          simp [dstep, this, h]
+      rw [List.foldl_cons, ih (dstep s op) hs]
+      constructor
+      · rintro ⟨pre, c, post, rfl, hc⟩
+        exact ⟨op :: pre, c, post, rfl, by simpa using hc⟩
+      · rintro ⟨pre, c, post, heq, hc⟩
+        cases pre with
+        | nil =>
+          simp only [List.nil_append, List.cons.injEq] at heq
+          exact absurd ⟨c, heq.1, by simpa using hc⟩ hacc
+        | cons x pre =>
+          simp only [List.cons_append, List.cons.injEq] at heq
+          obtain ⟨rfl, rfl⟩ := heq
+          exact ⟨pre, c, post, rfl, by simpa using hc⟩
+
+/-- **C08/DMAP, paired iff some request matched the PIN current at its arrival.**  For every
+    sequence of `pin()` calls, requests and `finish()` calls. -/
+theorem dmap_paired_iff (ops : List DOp) :
+    (drun ops).paired = true ↔
+      ∃ pre c post, ops = pre ++ DOp.request c :: post ∧ accepts (lastPin pre) c = true := by
+  rw [drun, foldl_dstep_paired ops DSt.init rfl]
+  constructor <;> rintro ⟨pre, c, post, h, hc⟩ <;> refine ⟨pre, c, post, h, ?_⟩
+  · rw [← dmap_current_pin]; exact hc
+  · rw [← dmap_current_pin] at hc; exact hc
+
+theorem foldl_dstep_stored (ops : List DOp) : ∀ s : DSt, (s.stored = true → s.paired = true) →
+    (ops.foldl dstep s).stored = true → (ops.foldl dstep s).paired = true := by
+  induction ops with
+  | nil => intro s h; exact h
+  | cons op r ih =>
+    intro s h
+    apply ih
+    cases op with
+    | pin p => simpa [dstep] using h
+    | request c => simp only [dstep]; split <;> simp_all
+    | finish => simp only [dstep]; split <;> simp_all
+
+/-- **C08/DMAP, credentials only after a matching request.** -/
+theorem dmap_stored_only_if_paired (ops : List DOp) :
+    (drun ops).stored = true → (drun ops).paired = true :=
+  foldl_dstep_stored ops DSt.init (by simp [DSt.init])
+
+/-- the code of a PIN that is no longer the configured one is refused (and so is any code of
+    another PIN), even right after a request was judged under the old PIN -/
+example : (drun [.pin 5, .request (some 9), .pin 7, .request (some 5), .finish]) = ⟨some 7, false, false⟩ ∧
+    (drun [.pin 0, .request none, .pin 7, .request (some 7), .finish]) = ⟨some 7, true, true⟩ := by decide
 
 /-! ## The two fixed defects, as scripts of the pinned tree -/
 
